@@ -486,7 +486,8 @@ theorem tickDispatchers_DCI : ∀ (is : List Nat) (cp : CP), DCI cp → DCI (tic
     · simp only [hf]; exact ih _ (dispTick_DCI cp i h)
 
 theorem handleLaunch_DCI (cp : CP) (h : DCI cp) : DCI (handleLaunch cp).1 := by
-  unfold handleLaunch
+  refine handleLaunch_ind cp ?_ h
+  unfold handleLaunchOld
   cases hdr : cp.drvIn with
   | nil => exact h
   | cons k rest =>
